@@ -694,6 +694,25 @@ impl<'tcx> Cx<'tcx> {
                         }
                     }
                 }
+                // a by-value array of one-byte elements (u8, or field-less enums such as a table `[Method; 3]` of all values):
+                // expose the bytes; the reader maps them to variants through the discriminants
+                if let ty::Array(elem, n) = ty.kind() {
+                    if let (Some(n), Ok(l)) = (
+                        n.try_to_target_usize(self.tcx),
+                        self.tcx.layout_of(TypingEnv::fully_monomorphized().as_query_input(*elem)),
+                    ) {
+                        let fieldless = match elem.kind() {
+                            ty::Adt(def, _) => def.is_enum() && def.variants().iter().all(|v| v.fields.is_empty()),
+                            ty::Uint(_) => true,
+                            _ => false,
+                        };
+                        if l.size.bytes() == 1 && fieldless {
+                            if let Some(b) = self.alloc_bytes(alloc_id, offset.bytes(), Some(n)) {
+                                return J::obj(vec![("k", J::s("bytes")), ("hex", J::Str(hex(&b)))]);
+                            }
+                        }
+                    }
+                }
                 J::obj(vec![("k", J::s("indirect"))])
             }
         }
